@@ -69,6 +69,7 @@ func runHistory(c *sim.Case, env *Env, name string, obs *histObserver, setup fun
 	defer os.RemoveAll(dir)
 	w := world.New(env.Stats, env.Log, dir)
 	w.ShortReadRng = sim.NewRand(c.OrderSeed ^ 0x5151)
+	w.Stable = c.C("stable") == 1
 	w.Obsv = append(w.Obsv, obs)
 	if setup != nil {
 		setup(w)
